@@ -10,7 +10,7 @@ namespace Manticore.C10
 open Manticore
 open Manticore.Gen
 
-/-- the package constants and their uses agree; 32 = 2·16 -/
+-- the package constants and their uses agree; 32 = 2·16
 theorem consts_match_model_package_constants :
     ConstsC10.validate_nameMax = ConstsC10.nameLength ∧ ConstsC10.encode_nameBuf = ConstsC10.nameLength
       ∧ ConstsC10.encode_padUntil = ConstsC10.nameLength ∧ ConstsC10.encode_loopUntil = ConstsC10.nameLength
@@ -24,19 +24,19 @@ theorem consts_match_model_package_constants :
       ∧ [dot] = ConstsC10.encode_scopeJoin ∧ [dot] = ConstsC10.decode_splitAt ∧ ConstsC10.decode_split_n = 2
       ∧ [ConstsC10.decode_high_mul, ConstsC10.decode_low_mul, ConstsC10.decode_low_plus] = [2, 2, 1] := by decide
 
-/-- `Validate`: the name limit -/
+-- `Validate`: the name limit
 theorem consts_match_model_validate (n : NBName) :
     validate n =
     (
       !(n.name.length > ConstsC10.validate_nameMax) && (n.scope.isEmpty || isValidDomainName n.scope)) := by exact rfl
 
-/-- `FirstLevelEncode`: nibble shift, masks and the letter offset -/
+-- `FirstLevelEncode`: nibble shift, masks and the letter offset
 theorem consts_match_model_encByte (b : UInt8) :
     encByte b =
     (
     [((b >>> UInt8.ofNat ConstsC10.encode_hi_shift) &&& UInt8.ofNat ConstsC10.encode_hi_mask) + UInt8.ofNat ConstsC10.encode_hi_add, (b &&& UInt8.ofNat ConstsC10.encode_lo_mask) + UInt8.ofNat ConstsC10.encode_lo_add]) := by exact rfl
 
-/-- `FirstLevelEncode`: padding length -/
+-- `FirstLevelEncode`: padding length
 theorem consts_match_model_pad16 (name : Bytes) :
     pad16 name =
     (
@@ -46,7 +46,7 @@ theorem consts_match_model_encode_shape :
     ConstsC10.encode_hi_shape = "(+ (& (>> (index name i) 4) 15) 65)" ∧ ConstsC10.encode_lo_shape = "(+ (& (index name i) 15) 65)"
       ∧ ConstsC10.decode_combine_shape = "(| (<< high 4) low)" := ⟨rfl, rfl, rfl⟩
 
-/-- `FirstLevelDecode`, one pair: letter offset, the nibble bound, the shift -/
+-- `FirstLevelDecode`, one pair: letter offset, the nibble bound, the shift
 theorem consts_match_model_decPairs (hi lo : UInt8) (rest : Bytes) :
     decPairs (hi :: lo :: rest) =
       if hi - UInt8.ofNat ConstsC10.decode_high_sub > UInt8.ofNat ConstsC10.decode_highMax
@@ -58,7 +58,7 @@ theorem consts_match_model_decPairs (hi lo : UInt8) (rest : Bytes) :
         | .err => .err
         | .panic => .panic := by exact rfl
 
-/-- `FirstLevelDecode`: the encoded length -/
+-- `FirstLevelDecode`: the encoded length
 theorem consts_match_model_firstLevelDecode (encoded : Bytes) :
     firstLevelDecode encoded =
     (
@@ -69,7 +69,7 @@ theorem consts_match_model_firstLevelDecode (encoded : Bytes) :
         | .err => .err
         | .panic => .panic) := by exact rfl
 
-/-- `isValidDomainName`: label length limits, the character ranges, the hyphen at the edges -/
+-- `isValidDomainName`: label length limits, the character ranges, the hyphen at the edges
 theorem consts_match_model_partOk (p : Bytes) :
     partOk p =
       (!(p.length == ConstsC10.domain_part_min || p.length > ConstsC10.domain_part_max) && p.all ldh
@@ -82,13 +82,13 @@ theorem consts_match_model_ldh (c : UInt8) :
           = "(! (|| (|| (|| (&& (>= c 97) (<= c 122)) (&& (>= c 65) (<= c 90))) (&& (>= c 48) (<= c 57))) (== c 45)))"
       ∧ ConstsC10.domain_part_shape = "(|| (== (len part) 0) (> (len part) 63))" := ⟨rfl, rfl, rfl, rfl, rfl⟩
 
-/-- `appendEncodedName`, one label -/
+-- `appendEncodedName`, one label
 theorem consts_match_model_appendLabels (l : Bytes) (ls : List Bytes) (buf : Bytes) :
     appendLabels (l :: ls) buf =
       if l.length = ConstsC10.append_label_min ∨ l.length > ConstsC10.append_label_max then .err
       else appendLabels ls (buf ++ UInt8.ofNat l.length :: l) := by exact rfl
 
-/-- `appendEncodedName`: the wire-length check and the terminator -/
+-- `appendEncodedName`: the wire-length check and the terminator
 theorem consts_match_model_appendEncodedName (buf encoded : Bytes) :
     appendEncodedName buf encoded =
     (
@@ -99,7 +99,7 @@ theorem consts_match_model_appendEncodedName (buf encoded : Bytes) :
         | .err => .err
         | .panic => .panic) := by exact rfl
 
-/-- `readEncodedName`, one turn of the loop: the end byte and the label limit -/
+-- `readEncodedName`, one turn of the loop: the end byte and the label limit
 theorem consts_match_model_readEncodedName (data : Bytes) (offset : Nat) (labels : List Bytes) :
     readEncodedName data offset labels =
     (
@@ -116,12 +116,12 @@ theorem consts_match_model_name_shapes :
       = ["(> (+ (len encoded) 2) 255)", "(|| (== (len label) 0) (> (len label) 63))", "(> (+ offset labelLen) (len data))",
          "(> (+ offset (int rr.RDLength)) (len data))"] := rfl
 
-/-- `data[off:off+2]` / `data[off:off+4]` read big-endian -/
+-- `data[off:off+2]` / `data[off:off+4]` read big-endian
 theorem consts_match_model_byte_order :
     ConstsC10.packet_anyLittle = false ∧ ConstsC10.rr_widths = [16, 16, 32, 16]
       ∧ rd16 [0x12, 0x34, 0x56] 0 = .ok 0x1234 ∧ rd32 [0x12, 0x34, 0x56, 0x78, 0x9A] 0 = .ok 0x12345678 := by decide
 
-/-- one question of `Unmarshal`: fixed size and offsets -/
+-- one question of `Unmarshal`: fixed size and offsets
 theorem consts_match_model_unmarshalQ (data : Bytes) (offset : Nat) :
     unmarshalQ data offset =
     (
@@ -139,7 +139,7 @@ theorem consts_match_model_unmarshalQ (data : Bytes) (offset : Nat) :
       | .err => .err
       | .panic => .panic) := by exact rfl
 
-/-- one resource record of `unmarshalRRs`: fixed size and offsets -/
+-- one resource record of `unmarshalRRs`: fixed size and offsets
 theorem consts_match_model_unmarshalRR (data : Bytes) (offset : Nat) :
     unmarshalRR data offset =
     (
@@ -164,7 +164,7 @@ theorem consts_match_model_unmarshalRR (data : Bytes) (offset : Nat) :
       | .err => .err
       | .panic => .panic) := by exact rfl
 
-/-- the slice ends of the fixed fields are start + width -/
+-- the slice ends of the fixed fields are start + width
 theorem consts_match_model_field_ends :
     [ConstsC10.question_type_hi, ConstsC10.question_class_hi - ConstsC10.question_class_lo] = [2, 2]
       ∧ [ConstsC10.rr_type_hi, ConstsC10.rr_class_hi - ConstsC10.rr_class_lo, ConstsC10.rr_ttl_hi - ConstsC10.rr_ttl_lo,
@@ -173,7 +173,7 @@ theorem consts_match_model_field_ends :
          ConstsC10.packet_h2_hi - ConstsC10.packet_h2_lo, ConstsC10.packet_h3_hi - ConstsC10.packet_h3_lo,
          ConstsC10.packet_h4_hi - ConstsC10.packet_h4_lo, ConstsC10.packet_h5_hi - ConstsC10.packet_h5_lo] = [2, 2, 2, 2, 2, 2] := by decide
 
-/-- `Unmarshal`: minimum length, the six header offsets, where the sections start -/
+-- `Unmarshal`: minimum length, the six header offsets, where the sections start
 theorem consts_match_model_unmarshal (data : Bytes) :
     unmarshal data =
     (
